@@ -371,3 +371,8 @@ class GhostDict:
         if self.on_set is not None:
             self.on_set(self, key, v)
         self.dom = z3.Store(self.dom, _z(key.gid), z3.BoolVal(True))
+
+    def method(self, interp, name, args, kwargs):
+        if name == "items" and getattr(self, "items_view", None) is not None:
+            return self.items_view          # an AbsList of (GhostKey, value) pairs supplied by the lemma
+        raise EngineError("GhostDict.%s" % name)
